@@ -21,12 +21,85 @@ type documentXML struct {
 }
 
 // bodyXML represents the document body.
-// Note: Paragraphs and Tables are collected separately by xml.Unmarshal.
+// Note: Paragraphs and Tables are collected separately by xml.Unmarshal
+// (UnmarshalXML: direct children and the content of block-level containers).
 // Use Elements for ordered access (populated by custom parsing).
 type bodyXML struct {
 	Paragraphs []paragraphXML `xml:"p"`
 	Tables     []tableXML     `xml:"tbl"`
 	Elements   []bodyElement  `xml:"-"` // Populated manually to preserve order
+}
+
+// UnmarshalXML collects the paragraphs and tables of the body in document order,
+// those inside block-level containers included (see decodeBlocks).
+func (b *bodyXML) UnmarshalXML(d *xml.Decoder, start xml.StartElement) error {
+	return decodeBlocks(d, 0, func(t xml.StartElement) (bool, error) {
+		switch t.Name.Local {
+		case "p":
+			var p paragraphXML
+			err := d.DecodeElement(&p, &t)
+			if err == nil {
+				b.Paragraphs = append(b.Paragraphs, p)
+			}
+			return true, err
+		case "tbl":
+			var tbl tableXML
+			err := d.DecodeElement(&tbl, &t)
+			if err == nil {
+				b.Tables = append(b.Tables, tbl)
+			}
+			return true, err
+		}
+		return false, nil
+	})
+}
+
+// isBlockContainer reports whether a child of the body, of a table cell or of
+// another such container holds block-level content of its parent: a content control
+// (<w:sdt> with its <w:sdtContent>: what Word writes for a cover page, a table of
+// contents, a bibliography, a rich-text control around whole paragraphs) or a custom
+// XML element (<w:customXml>). The paragraphs and tables inside are content of the
+// body (or cell) at the place of the container.
+func isBlockContainer(local string) bool {
+	switch local {
+	case "sdt", "sdtContent", "customXml":
+		return true
+	}
+	return false
+}
+
+// decodeBlocks reads child elements up to the end tag of the current element,
+// descending into block containers. Every other child is offered to block, which
+// decodes it and reports true, or reports false to have it skipped (properties of
+// the containers, section properties, bookmarks, ...). Containers may nest at most
+// maxInlineDepth deep, as the inline containers of a paragraph may.
+func decodeBlocks(d *xml.Decoder, depth int, block func(xml.StartElement) (bool, error)) error {
+	if depth > maxInlineDepth {
+		return fmt.Errorf("block containers nested deeper than %d levels", maxInlineDepth)
+	}
+	for {
+		token, err := d.Token()
+		if err != nil {
+			return err
+		}
+
+		switch t := token.(type) {
+		case xml.EndElement:
+			return nil
+		case xml.StartElement:
+			if isBlockContainer(t.Name.Local) {
+				err = decodeBlocks(d, depth+1, block)
+			} else {
+				var done bool
+				if done, err = block(t); err == nil && !done {
+					err = d.Skip()
+				}
+			}
+			if err != nil {
+				return err
+			}
+		}
+	}
 }
 
 // bodyElement represents an element in the document body (paragraph or table).
@@ -379,6 +452,26 @@ type tableCellXML struct {
 	XMLName    xml.Name       `xml:"tc"`
 	Properties cellPropsXML   `xml:"tcPr"`
 	Paragraphs []paragraphXML `xml:"p"`
+}
+
+// UnmarshalXML collects the paragraphs of the cell in document order, those inside
+// block-level containers included (see decodeBlocks).
+func (c *tableCellXML) UnmarshalXML(d *xml.Decoder, start xml.StartElement) error {
+	c.XMLName = start.Name
+	return decodeBlocks(d, 0, func(t xml.StartElement) (bool, error) {
+		switch t.Name.Local {
+		case "tcPr":
+			return true, d.DecodeElement(&c.Properties, &t)
+		case "p":
+			var p paragraphXML
+			err := d.DecodeElement(&p, &t)
+			if err == nil {
+				c.Paragraphs = append(c.Paragraphs, p)
+			}
+			return true, err
+		}
+		return false, nil
+	})
 }
 
 // cellPropsXML represents cell properties.
